@@ -1058,7 +1058,7 @@ def run(ctx):
     os.makedirs(TMP, exist_ok=True)
     t_start = time.time()
     big = ctx.thorough or ctx.escalated()
-    n_graphs = 2400 if ctx.thorough else (220 if ctx.escalated() else 110)
+    n_graphs = 1500 if ctx.thorough else (220 if ctx.escalated() else 110)
     n_graphs = int(os.environ.get("C01_NGRAPHS", n_graphs))  # development aid
     n_cfg = 4 if big else 3
     rng = ctx.rng
